@@ -639,7 +639,8 @@ func findClosureReader(r Reader, opener, closer byte, opts FindClosureOptions) (
 						if ret == nil {
 							ret = NewSegments()
 						}
-						ret.Append(seg.WithStop(seg.Start + i))
+						// i is an index into the line including its padding
+						ret.Append(seg.WithStop(seg.Start + i - seg.Padding))
 						r.Advance(i + 1)
 						closed = true
 						goto end
